@@ -83,13 +83,57 @@ func mnemonic(seed []byte) string {
 	return m
 }
 
+// The seed STRING of the deterministic wallet of the current case.  `reset deterministic <hex> M` uses
+// the hex text itself (a seed that is valid even-length hex, like the 64-hex seeds of old wallets);
+// `reset deterministic s:<hex of the string's bytes> M` any other string (words, digits only, odd-length
+// hex, upper-case hex ...).
+var curSeedStr string
+
+func detSeedOf(seed []byte) string {
+	if curSeedStr != "" {
+		return curSeedStr
+	}
+	return hex.EncodeToString(seed)
+}
+
+// abSeed abbreviates a lastSeed value (hex, or before the first key the seed string itself)
+func abSeed(s string) string {
+	b := []byte(ab(s))
+	for i, c := range b {
+		if !(c >= '0' && c <= '9' || c >= 'a' && c <= 'z' || c >= 'A' && c <= 'Z') {
+			b[i] = '_'
+		}
+	}
+	if len(b) == 0 {
+		return "_"
+	}
+	return string(b)
+}
+
+// libChain: the reference for deterministic wallets comes from the cipher library, NOT from a wallet:
+// the first M key pairs of cipher.GenerateDeterministicKeyPairsSeed([]byte(seed string)) and the seed
+// value after n keys, n = 0..M (before the first key: the seed string)
+func libChain(seedStr string, M int) (es []wallet.Entry, st []string) {
+	_, secs := cipher.MustGenerateDeterministicKeyPairsSeed([]byte(seedStr), M)
+	for _, sk := range secs {
+		pk := cipher.MustPubKeyFromSecKey(sk)
+		es = append(es, wallet.Entry{Address: cipher.AddressFromPubKey(pk), Public: pk, Secret: sk})
+	}
+	st = append(st, abSeed(seedStr))
+	for n := 1; n <= M; n++ {
+		sd, _ := cipher.MustGenerateDeterministicKeyPairsSeed([]byte(seedStr), n)
+		st = append(st, abSeed(hex.EncodeToString(sd)))
+	}
+	return es, st
+}
+
 func fresh(typ string, seed []byte, n int) wallet.Wallet {
 	opts := []wallet.Option{wallet.OptionGenerateN(uint64(n)), wallet.OptionCryptoType(crypto.CryptoTypeSha256Xor)}
 	var w wallet.Wallet
 	var err error
 	switch typ {
 	case "deterministic":
-		w, err = deterministic.NewWallet("d.wlt", "label", hex.EncodeToString(seed), opts...)
+		w, err = deterministic.NewWallet("d.wlt", "label", detSeedOf(seed), opts...)
 	case "bip44":
 		w, err = bip44wallet.NewWallet("b.wlt", "label", mnemonic(seed), "", opts...)
 	case "xpub":
@@ -124,7 +168,7 @@ func entriesOf(w wallet.Wallet, opts ...wallet.Option) []cipher.Addresser {
 func (s *state) view() string {
 	last := "-"
 	if s.typ == "deterministic" && !s.locked {
-		last = ab(s.w.LastSeed())
+		last = abSeed(s.w.LastSeed())
 	}
 	if s.typ == "bip44" {
 		return fmt.Sprintf("e=%s last=%s c=%s", abAddrs(entriesOf(s.w, wallet.OptionExternal())), last, abAddrs(entriesOf(s.w, wallet.OptionChange())))
@@ -132,7 +176,20 @@ func (s *state) view() string {
 	return fmt.Sprintf("e=%s last=%s", abAddrs(entriesOf(s.w)), last)
 }
 
-func doReset(typ string, seed []byte, M int) string {
+func doReset(typ string, seedField string, M int) string {
+	curSeedStr = ""
+	var seed []byte
+	if strings.HasPrefix(seedField, "s:") {
+		curSeedStr = string(PHex(seedField[2:]))
+		h := cipher.SumSHA256([]byte(curSeedStr))
+		seed = h[:16]
+	} else if typ == "deterministic" {
+		curSeedStr = seedField
+		h := cipher.SumSHA256([]byte(curSeedStr))
+		seed = h[:16]
+	} else {
+		seed = PHex(seedField)
+	}
 	s := &state{typ: typ, seed: seed, ext: map[string]int{}, chg: map[string]int{}, ref: map[string]wallet.Entry{}}
 	remember := func(w wallet.Wallet) {
 		es, err := w.GetEntries()
@@ -144,17 +201,32 @@ func doReset(typ string, seed []byte, M int) string {
 	out := "ok"
 	switch typ {
 	case "deterministic":
-		ref := fresh(typ, seed, M)
-		remember(ref)
-		as := entriesOf(ref)
-		for i, a := range as {
-			s.ext[a.String()] = i
+		es, st := libChain(curSeedStr, M)
+		var as []cipher.Addresser
+		for i, e := range es {
+			s.ref[e.Address.String()] = e
+			s.ext[e.Address.String()] = i
+			as = append(as, e.Address)
 		}
-		var st []string
-		for n := 0; n <= M; n++ {
-			st = append(st, ab(fresh(typ, seed, n).LastSeed()))
+		// a wallet that derives the M addresses in one batch agrees with the library (addresses, keys, lastSeed) ...
+		batch := "batch=same"
+		bw := fresh(typ, seed, M)
+		bes, err := bw.GetEntries()
+		must(err)
+		if len(bes) != len(es) || abSeed(bw.LastSeed()) != st[M] {
+			batch = "batch=DIFFERENT"
 		}
-		out += " seq=" + abAddrs(as) + " st=" + strings.Join(st, ",")
+		for i := range bes {
+			if i < len(es) && (bes[i].Address.String() != es[i].Address.String() || bes[i].Public != es[i].Public || bes[i].Secret != es[i].Secret) {
+				batch = "batch=DIFFERENT"
+			}
+		}
+		// ... and so does the fingerprint of the wallet that has no address yet
+		fp := "fp=same"
+		if M > 0 && fresh(typ, seed, 0).Fingerprint() != "deterministic-"+es[0].Address.String() {
+			fp = "fp=DIFFERENT"
+		}
+		out += " seq=" + abAddrs(as) + " st=" + strings.Join(st, ",") + " " + batch + " " + fp
 		s.w = fresh(typ, seed, 0)
 	case "bip44":
 		ref := fresh(typ, seed, M)
@@ -239,7 +311,7 @@ func c17Exec(op string) string {
 	}
 	switch f[0] {
 	case "reset":
-		return doReset(f[1], PHex(f[2]), int(PU64(f[3])))
+		return doReset(f[1], f[2], int(PU64(f[3])))
 	case "gen":
 		opts := []wallet.Option{wallet.OptionGenerateN(PU64(f[1]))}
 		if len(f) > 2 && f[2] == "chg" {
@@ -391,6 +463,52 @@ func c17Exec(op string) string {
 	panic("harness: unknown op " + f[0])
 }
 
+// detSeedField: seed strings of deterministic wallets are free-form.  Every shape a user or an old release
+// produced: the 64-hex seeds of the first wallets, short hex-looking words, digits only, upper / mixed
+// case hex, odd-length hex, hex with a blank, mnemonic words, arbitrary text
+func detSeedField(r *Rng, c int) string {
+	asStr := func(s string) string { return "s:" + Hex([]byte(s)) }
+	hexOf := func(n int) string { return Hex(r.Bytes(n)) }
+	words := []string{"buddy", "fossil", "side", "modify", "turtle", "door", "label", "grunt", "baby", "worth", "brush", "master", "cafe", "dead", "beef", "face", "add", "bed"}
+	switch c % 12 {
+	case 0:
+		return hexOf(32) // 64 hex characters
+	case 1:
+		return hexOf(16)
+	case 2:
+		return []string{"12345678", "cafe", "deadbeef", "00", "0000", "abcdef", "1234", "99999999999999999999", "facade", "decade0123"}[r.Intn(10)]
+	case 3:
+		return asStr(strings.ToUpper(hexOf(1 + r.Intn(16)))) // upper-case hex (hex.DecodeString accepts it)
+	case 4:
+		h := hexOf(1 + r.Intn(16))
+		return asStr(h[:len(h)-1]) // odd length: not decodable
+	case 5:
+		d := ""
+		nd := 2 * (1 + r.Intn(10))
+		for i := 0; i < nd; i++ {
+			d += string(rune('0' + r.Intn(10)))
+		}
+		return d // digits only, even length
+	case 6:
+		var ws []string
+		for i := 0; i < 12; i++ {
+			ws = append(ws, words[r.Intn(len(words))])
+		}
+		return asStr(strings.Join(ws, " "))
+	case 7:
+		return asStr(words[12+r.Intn(6)] + words[12+r.Intn(6)]) // hex-looking words: "cafebeef", "deadadd" ...
+	case 8:
+		h := hexOf(4 + r.Intn(8))
+		return asStr(h[:4] + []string{" ", "g", "-", "0x"}[r.Intn(4)] + h[4:]) // almost hex
+	case 9:
+		return asStr("0x" + hexOf(1+r.Intn(8)))
+	case 10:
+		return asStr(string(r.Bytes(1 + r.Intn(20)))) // arbitrary bytes
+	default:
+		return hexOf(1 + r.Intn(40))
+	}
+}
+
 func c17Gen(r *Rng, tier string, emit func(string)) {
 	cases := 40
 	if tier == "thorough" {
@@ -404,7 +522,11 @@ func c17Gen(r *Rng, tier string, emit func(string)) {
 		if typ == "bip44" || typ == "xpub" {
 			M = 8 + r.Intn(10)
 		}
-		emit(fmt.Sprintf("reset %s %s %d", typ, Hex(r.Bytes(16)), M))
+		seedField := Hex(r.Bytes(16))
+		if typ == "deterministic" {
+			seedField = detSeedField(r, c)
+		}
+		emit(fmt.Sprintf("reset %s %s %d", typ, seedField, M))
 		if typ == "collection" {
 			for i := 0; i < 2+r.Intn(4); i++ {
 				switch r.Intn(4) {
